@@ -1527,6 +1527,12 @@ impl Vm {
         Call::Err(LyError::Exit(code)) => self.set_exit(code),
       },
       NativeEnvironment::Normal => {
+        // natives can call back into natives, str() of nested or self containing
+        // collections for one, so their frames count against the limit as well
+        if self.fiber.frames().len() == MAX_FRAME_SIZE {
+          return self.runtime_error_from_str(self.builtin.errors.runtime, "Stack overflow.");
+        }
+
         let mut stub = self.native_fun_stubs.pop().unwrap_or_else(|| {
           self.manage_obj(Fun::stub(
             &GcHooks::new(self),
